@@ -261,6 +261,42 @@ def run_case(case, ctx):
                 ctx.fail(mon, f"restored ({mech}) model raised {type(e).__name__}: {str(e)[:160]}", "raise_after", exc=type(e).__name__, mech=mech, **kw)
         # the original itself is unaffected by having been saved
         _compare(ctx, "original_unaffected", fam, orig, _observe(fam, m), (1e-9, 1e-9), **kw)
+        # ---- loading into a model that is ALREADY in evaluation mode and has predicted (caches of its own state alive),
+        # without calling eval() afterwards
+        try:
+            fam.alt = True
+            try:
+                fr2 = fam.build(alt=True) if getattr(fam, "has_alt", False) else fam.build()
+            finally:
+                fam.alt = False
+            if fam.exact:
+                fr2.set_train_data(m.train_inputs[0], m.train_targets, strict=False)
+            for mod in fr2.modules():
+                if hasattr(mod, "variational_params_initialized"):
+                    mod.variational_params_initialized.fill_(1)
+            fr2.eval()
+            _observe(fam, fr2)
+            fr2.load_state_dict(copy.deepcopy(m.state_dict()))
+            _compare(ctx, "state_dict_into_warm_eval_model", fam, orig2, _observe(fam, fr2), (1e-7, 1e-7), **kw)
+        except Exception as e:
+            ctx.fail("state_dict_into_warm_eval_model", f"raised {type(e).__name__}: {str(e)[:160]}", "raise", exc=type(e).__name__, **kw)
+        # ---- a copy is independent of the original: the original moves on (an in-place parameter update, what an
+        # optimiser step does), the copies still describe the saved state
+        if i == len(steps) - 1:
+            before_cp = {}
+            for mech, cp in copies.items():
+                try:
+                    before_cp[mech] = _observe(fam, cp)
+                except Exception:
+                    pass
+            with torch.no_grad():
+                for p_ in m.parameters():
+                    p_.add_(0.05)
+            for mech, ob in before_cp.items():
+                try:
+                    _compare(ctx, "copy_independent_of_original", fam, ob, _observe(fam, copies[mech]), (1e-12, 1e-12), mech=mech, **kw)
+                except Exception as e:
+                    ctx.fail("copy_independent_of_original", f"{mech} copy raised after the original moved: {type(e).__name__}: {str(e)[:120]}", "raise", mech=mech, **kw)
     ctx.cell({"family": case["family"], "seq": case["seq"]}, nontrivial=True)
 
 
